@@ -68,6 +68,13 @@ Fixpoint pop_q (t : Z) (qs : list (Z * list event)) : list (Z * list event) :=
 Fixpoint remove_first (t : Z) (l : list Z) : list Z :=
   match l with [] => [] | x :: r => if x =? t then r else x :: remove_first t r end.
 
+(* the distinct elements of l in the order of their first occurrence *)
+Fixpoint firsts (l seen : list Z) : list Z :=
+  match l with
+  | [] => []
+  | x :: r => if existsb (Z.eqb x) seen then firsts r seen else x :: firsts r (x :: seen)
+  end.
+
 (* every thread performs the latent steps that its next recorded event needs, as soon as they are possible; a thread
    with nothing left goes back to PIdle when it can.  The threads are visited in the order of their next recorded events
    (sched passes the preferred order): the entry of a worker into _dispatch_block_async_invoke2 consumes a queued
@@ -101,7 +108,7 @@ Fixpoint pick (s : gst) (qs : list (Z * list event)) (ord : list Z) (seen : list
 
 Fixpoint sched (fuel : nat) (w : nat) (ths : list Z) (s : gst) (qs : list (Z * list event)) (ord : list Z) (done nl : Z)
   : gst * Z * Z * list Z * list (Z * list event) :=
-  let '(s0, nl0) := settle s qs (nodup Z.eq_dec (ord ++ ths)) nl in
+  let '(s0, nl0) := settle s qs (firsts (ord ++ ths) []) nl in
   match fuel with
   | O => (s0, done, nl0, ord, qs)
   | S f =>
@@ -175,11 +182,13 @@ Definition all_idle (s : gst) (ths : list Z) : bool := forallb (fun t => pc_idle
    on a DBF_PERFORM record is replayed as a dispatch_block_cancel by a thread of its own).
    result: [recorded events executed; left; latent steps inserted; next stuck thread or -1; all threads idle; inv_b;
             flags; performed; queue <> NULL; gcount; bodies; fin; ninv; leaves; nreg; notifications submitted; qref;
-            cancelled; program-point tag of the stuck thread; its recorded events not yet executed] *)
+            cancelled; program-point tag of the stuck thread; its recorded events not yet executed; disposed; dleave;
+            pendsub] *)
 Definition replay (pf : bool) (w : nat) (qs : list (Z * list event)) (ord : list Z) : list Z :=
   let ths := map fst qs in
   let '(s, done, nl, rest, qs') := sched (S (length ord)) w ths (init_state pf) qs ord 0 0 in
   [done; Z.of_nat (length rest); nl; match rest with t :: _ => t | [] => -1 end; b2z (all_idle s ths); b2z (inv_b s ths);
    flags s; performed s; b2z (negb (queue s =? 0)); gcount s; bodies s; fin s; ninv s; leaves s; nreg s;
    sumf (fcnt s) (nreg s); qref s; b2z (cancelled s); match rest with t :: _ => pc_tag (pcs s t) | [] => -1 end;
-   match rest with t :: _ => Z.of_nat (length (lookup t qs')) | [] => 0 end].
+   match rest with t :: _ => Z.of_nat (length (lookup t qs')) | [] => 0 end;
+   b2z (disposed s); b2z (dleave s); pendsub s].
